@@ -124,3 +124,129 @@ From BB Require Gen.Effects Proofs.Effects Proofs.EffectsOk.
 Theorem C04_assemble_is_a_function_of_its_inputs : Proofs.Effects.summary_ok Gen.Effects.summary = true.
 Proof. exact Proofs.EffectsOk.summary_ok_holds. Qed.
 Print Assumptions C04_assemble_is_a_function_of_its_inputs.
+
+From BB Require Import Proofs.NoRaw Proofs.CompressItem Proofs.CompressTail Proofs.CompressLit Proofs.CompressProgram Proofs.CompressTransfer Proofs.CompressExt Model.Parser Proofs.ParseCflag Proofs.CompressSem.
+
+(* ---- whole program ---------------------------------------------------------------------------------------------------------------
+   One instruction item, followed through BOTH pipelines.  A well-formed 32-bit instruction item (instr_okb: what the parser
+   produces; compressed flag = the one of its class) whose immediate is not position-relative, on which the compression pass
+   selected a rule and built the compressed item yC: whatever offsets / label tables the two runs resolve the immediates with
+   (`resolved`), if the generated 32-bit encoder accepts the item (bytes bsU) then yC is a compressed instruction item, and if the
+   generated 16-bit encoder accepts yC (bytes bsC) then bsU are the 4 little-endian bytes of a word w, bsC the 2 bytes of a
+   halfword h, decode32 w = Some ins, decode16 h = Some ci (a legal, non-hint RV32C encoding) and expand_c ci has the same
+   meaning as ins (equiv_b: equal, or `add rd, x0, rs` for `addi rd, rs, 0`; equiv_b_sem of Proofs/RulesSem.v turns it into
+   sem_equiv).  This is C04_rule_sound / C04_rule_encodes tied to the ITEM (register spellings, aliases, ghost / flag fields,
+   the immediate finally evaluated). *)
+Theorem C04_item_pair :
+  forall consts l p ls cls name fs c r yC pU labU fsU bsU,
+    instr_okb false cls name fs = true -> c = String.prefix "C" cls ->
+    (forall e, field_get "imm" fs = Some (FExpr e) -> is_position_relative e = false) ->
+    imm_unstable l p consts cls fs = Done false ->
+    select_rule criteria (view_of l p consts ls name fs) = Ok (Some r) ->
+    build_compressed r fs = Some yC ->
+    resolved l pU consts labU fs fsU -> encode_item l cls name fsU c = Done bsU ->
+    exists cls' final nfs, yC = IInstr cls' final nfs true /\ c = false /\ String.prefix "C" cls' = true /\
+      forall pC labC nfsC bsC, resolved l pC consts labC nfs nfsC -> encode_item l cls' final nfsC true = Done bsC ->
+      exists w h ci ins, bsU = le_bytes 4 w /\ bsC = le_bytes 2 h /\ 0 <= w < 2^32 /\ 0 <= h < 2^16 /\
+         decode32 w = Some ins /\ decode16 h = Some ci /\ equiv_b (expand_c ci) ins = true.
+Proof. exact pair_sound. Qed.
+Print Assumptions C04_item_pair.
+
+(* Enabling compression does not change what a LITERAL program means.
+   Class (literal_programb, a boolean on the item list, Proofs/CompressProgram.v): every item is well-formed in the sense of
+   C15 (okb 0: what Model/Parser.v returns, Proofs/ParseOk.v), the compressed flag of an instruction item is the one of its class
+   (cflag_ok), and no immediate of an instruction / pack / db..dd item is position-relative (%offset) or mentions a LABEL of the
+   program (item_lit; constants, arithmetic, %hi / %lo / %position on constants are allowed), no pseudo-instruction takes a label
+   reference (beqz .. j / jal / call / tail are outside; li, mv, not, neg, seqz .., jr, jalr, ret, nop, fence are inside).  Any data
+   items, any `align N` (N >= 1: nonneg), labels and constant definitions anywhere.  The initial label table is empty.
+   Statement: if BOTH runs succeed, their chunk lists correspond SOURCE ITEM BY SOURCE ITEM, in order (corr, walking the source
+   list with the running offsets pU / pC of the two outputs; item_corr):
+     label L      -> no chunk; the value of L in the uncompressed run's label table is pU, in the compressed run's table pC
+     constant     -> no chunk
+     align n      -> the padding (n - p mod n) mod n of THAT run's offset (no chunk, or one zero chunk): pad_chunks
+     data item    -> one chunk, IDENTICAL in both runs (string, bytes.., db.., pack, include_bytes, blobs)
+     instruction / pseudo-instruction -> equally many chunks in both runs (li: one or two), all carrying the item's line, pairwise
+                     either IDENTICAL or (chunk_corr) the 4 bytes of a word w against the 2 bytes of a halfword h with
+                     decode32 w = Some ins, decode16 h = Some ci, equiv_b (expand_c ci) ins = true.
+   Since the offsets advance by the chunk lengths, the theorem also says where every label ends up in each run. *)
+Theorem C04_program_literal :
+  forall its c0 rU rC,
+    nonneg its -> literal_programb its = true ->
+    assemble_items its c0 [] false = Done rU -> assemble_items its c0 [] true = Done rC ->
+    corr (r_labels rU) (r_labels rC) 0 0 its (r_chunks rU) (r_chunks rC).
+Proof. exact program_literal_b. Qed.
+Print Assumptions C04_program_literal.
+
+(* non-vacuity: K = 4 / addi x8, x8, 4 (-> c.addi) / addi x1, x2, K * 25 (no rule) / L: / dw 0x12345678 / align 4 (pads 0 bytes
+   without, 2 bytes with compression) / li x9, 5 (-> c.li) / string hi / M:   -- both runs, and the correspondence for them *)
+Example C04_program_example :
+  nonneg ex04 /\ literal_programb ex04 = true /\
+  assemble_items ex04 [] [] false = Done {| r_chunks := ex04_chunksU; r_consts := [("K", 4)]; r_labels := [("L", 8); ("M", 18)] |}%string /\
+  assemble_items ex04 [] [] true = Done {| r_chunks := ex04_chunksC; r_consts := [("K", 4)]; r_labels := [("L", 6); ("M", 16)] |}%string /\
+  corr [("L", 8); ("M", 18)]%string [("L", 6); ("M", 16)]%string 0 0 ex04 ex04_chunksU ex04_chunksC /\
+  exists ci ins, decode16 (17 + 4 * 256) = Some ci /\ decode32 (19 + 4 * 256 + 68 * 65536) = Some ins /\ expand_c ci = ins.
+Proof. exact (conj ex04_nonneg (conj ex04_literal (conj (proj1 ex04_runs) (conj (proj2 ex04_runs) (conj ex04_corr ex04_first_pair))))). Qed.
+
+(* ---- ... with pc-relative transfers to labels -----------------------------------------------------------------------------------
+   One transfer item (class B or J: beq .. bgeu / jal; immediate %offset(L); L not a constant), whatever the compression pass made
+   of it AT ANY position with ANY label table (itC: the item itself, or c.beqz / c.bnez / c.j / c.jal): the uncompressed run emits the
+   4 bytes of a word wU, decode32 wU = insU; the compressed run emits 4 bytes decoding to insC, or the 2 bytes of a legal halfword
+   expanding to insC; insU and insC are the SAME transfer (retarget: same condition and registers) with the offsets LU - pU and
+   LC - pC, LU / LC being the value of L in the label table of that run: each lands on L (C03_*_lands, for both runs at once). *)
+Theorem C04_item_transfer :
+  forall consts l cls name fs c L p ls itC pU labU fsU bsU,
+    instr_okb false cls name fs = true -> c = String.prefix "C" cls -> is_tr_cls cls = true ->
+    field_get "imm" fs = Some (FExpr (EOff L)) -> assoc_str L consts = None -> back_of fs = 0 ->
+    compress_rule consts l (IInstr cls name fs c) p ls = Done [itC] ->
+    resolved l pU consts labU fs fsU -> encode_item l cls name fsU c = Done bsU ->
+    exists LU wU insU, assoc_str L labU = Some LU /\ bsU = le_bytes 4 wU /\ 0 <= wU < 2^32 /\ decode32 wU = Some insU /\
+      exists cls' name' fs' c', itC = IInstr cls' name' fs' c' /\ back_of fs' = 0 /\
+        forall pC labC fsC bsC, resolved l pC consts labC fs' fsC -> encode_item l cls' name' fsC c' = Done bsC ->
+          exists LC insC, assoc_str L labC = Some LC /\ retarget insU (LU - pU) insC (LC - pC) /\
+            ((c' = false /\ exists wC, bsC = le_bytes 4 wC /\ 0 <= wC < 2^32 /\ decode32 wC = Some insC) \/
+             (c' = true /\ exists h ci, bsC = le_bytes 2 h /\ 0 <= h < 2^16 /\ decode16 h = Some ci /\ expand_c ci = insC)).
+Proof. exact transfer_pair. Qed.
+Print Assumptions C04_item_transfer.
+
+(* The program theorem for the extended class (ext_programb, Proofs/CompressExt.v): every item is in the literal class of
+   C04_program_literal, OR is a branch / jal instruction item whose immediate is %offset(L), OR one of the pseudo-instructions
+   beqz bnez bgez bltz blez bgtz bgt ble bgtu bleu j jal (last operand L) -- with L NOT A CONSTANT of the run (`r_consts rU`; a
+   constant as target is an absolute address: outside).  call / tail and label values inside data or non-transfer immediates
+   remain outside (K2 of C12 shows that the latter really change meaning).
+   Statement (corr_x / item_corr_x): as C04_program_literal; for an instruction / pseudo-instruction the chunks are walked with
+   their offsets (code_corr) and correspond by chunk_corr_x: as before, or (ccx_transfer) a transfer to L: the 4 bytes of wU with
+   decode32 wU = insU against 4 bytes decoding to insC or 2 bytes of a legal halfword expanding to insC, retarget insU (LU - pU)
+   insC (LC - pC), assoc_str L (r_labels rU) = Some LU, assoc_str L (r_labels rC) = Some LC.
+   NOTE the hypothesis that BOTH runs succeed: with transfers it is not implied by the success of the uncompressed run (K1). *)
+Theorem C04_program_transfers :
+  forall its c0 rU rC,
+    nonneg its -> ext_programb (r_consts rU) its = true ->
+    assemble_items its c0 [] false = Done rU -> assemble_items its c0 [] true = Done rC ->
+    corr_x (r_labels rU) (r_labels rC) 0 0 its (r_chunks rU) (r_chunks rC).
+Proof. exact program_transfers. Qed.
+Print Assumptions C04_program_transfers.
+
+(* non-vacuity: a: / addi x8, x8, 4 / beqz x8, a (-> c.beqz, backwards) / j b (-> c.j, across the align) / align 8 / b: /
+   bne x1, x2, a (stays 32 bit, offset -16 without and -8 with compression) / jal ra, b (-> c.jal) / dw 7;   b = 16 resp. 8 *)
+Example C04_program_transfers_example :
+  nonneg ex04t /\ ext_programb [] ex04t = true /\
+  assemble_items ex04t [] [] false = Done {| r_chunks := ex04t_chunksU; r_consts := []; r_labels := [("a", 0); ("b", 16)] |}%string /\
+  assemble_items ex04t [] [] true = Done {| r_chunks := ex04t_chunksC; r_consts := []; r_labels := [("a", 0); ("b", 8)] |}%string /\
+  corr_x [("a", 0); ("b", 16)]%string [("a", 0); ("b", 8)]%string 0 0 ex04t ex04t_chunksU ex04t_chunksC.
+Proof. exact (conj ex04t_nonneg (conj ex04t_ext (conj (proj1 ex04t_runs) (conj (proj2 ex04t_runs) ex04t_corr)))). Qed.
+
+(* the side condition cflag_ok of the two program theorems is what the parser model produces (like okb 0: Proofs/ParseOk.v) *)
+Theorem C04_parser_flag : forall l tokens it, parse_item l tokens = FOk it -> cflag_ok it = true.
+Proof. exact parse_item_cflag. Qed.
+Print Assumptions C04_parser_flag.
+
+(* what a non-identical pair of chunks of C04_program_literal means on the Spec machine: the two bytes of the compressed run, loaded
+   at the pc, execute (one step of the fetching machine of Spec/Sem.v) exactly like the 32-bit instruction the uncompressed run
+   emitted in their place, taken with length 2 *)
+Theorem C04_chunk_machine :
+  forall cU cC, chunk_corr cU cC ->
+    cU = cC \/
+    exists w h ins, cU = CBytes (le_bytes 4 w) /\ cC = CBytes (le_bytes 2 h) /\ decode32 w = Some ins /\
+      forall s, loaded s (le_bytes 2 h) -> ostate_eq (run_n 1 s) (step ins 2 s).
+Proof. exact chunk_corr_machine. Qed.
+Print Assumptions C04_chunk_machine.
